@@ -33,7 +33,7 @@ CORPUS = [
 
 
 def judge(ctx, srcs, label):
-    res = progstream.run_all(srcs)
+    res = progstream.run_all(srcs, with_model_vm=True, asm=True)
     n_bad_unsupported = 0
     for src, r in zip(srcs, res):
         if r.get("crashed") or not r["A"].startswith("ACCEPT"):
@@ -51,6 +51,18 @@ def judge(ctx, srcs, label):
             ctx.coverage[key] = ctx.coverage.get(key, 0) + 1
             continue
         ctx.count(case_key=src, nontrivial=len(spec.get("out", "")) > 0 or spec["cls"] != "OK")
+        # ties of the compiler model (instruction streams verbatim) and of the VM model (outcome + residue)
+        masm, mvm = r.get("MASM"), r.get("MVM")
+        if masm is not None and not masm.startswith("UNSUPPORTED"):
+            ctx.coverage["asm_compared"] = ctx.coverage.get("asm_compared", 0) + 1
+            if masm != r.get("ASM"):
+                if sum(1 for b in ctx.broken if b.startswith("correspondence:compile")) < 3:
+                    ctx.broken.append(f"correspondence:compile-model-vs-go-compiler:{src[:120]!r}")
+        if mvm is not None and vm is not None and mvm["cls"] not in ("UNSUPPORTED", "TIMEOUT", "DECODE-ERROR") and not (mvm["cls"] == "PANIC" and mvm.get("what", "").startswith("unsupported")):
+            ctx.coverage["vm_model_compared"] = ctx.coverage.get("vm_model_compared", 0) + 1
+            same = progstream.same_outcome(vm, mvm) and (vm["cls"] != "OK" or (vm.get("stack"), vm.get("mp"), vm.get("handlers")) == (mvm.get("stack"), mvm.get("mp"), mvm.get("handlers")))
+            if not same and sum(1 for b in ctx.broken if b.startswith("correspondence:vm")) < 3:
+                ctx.broken.append(f"correspondence:vm-model-vs-go-vm:{src[:120]!r}: go={vm['raw'][:100]} model={mvm['raw'][:100]}")
         ctx.sample({"main": src[:400], "vm": vm["raw"][:200], "spec": spec["raw"][:200]}, limit=4)
         if vm["cls"] == "TERM" and spec["cls"] != "TERM":
             # the harness's own wall-clock guard fired: re-run alone with a generous limit before judging
